@@ -3,6 +3,7 @@
 //! prints one result line per case in the same format as the model driver.
 mod bits;
 mod dev;
+mod file;
 mod page;
 mod util;
 
@@ -23,6 +24,12 @@ fn main() {
                 "PW" => page::run_pw(&toks[1..]),
                 "PR" => page::run_pr(&toks[1..]),
                 "CRCPAGE" => page::run_crc(&toks[1..]),
+                "FW" => file::run_fw(&toks[1..]),
+                "RD" => file::run_rd(&toks[1..]),
+                "OPEN" => file::run_open(&toks[1..]),
+                "BLOBRD" => file::run_blobrd(&toks[1..]),
+                "VCRC" => file::run_vcrc(&toks[1..]),
+                "RAWXML" => file::run_rawxml(&toks[1..]),
                 "BITS" => bits::run_bits(&toks[1..]),
                 "BW" => bits::run_bw(&toks[1..]),
                 "BR" => bits::run_br(&toks[1..]),
